@@ -151,6 +151,8 @@ Inductive label :=
 | Recv (p c : nat)                  (* receiver.Next returns an announcement of head c *)
 | Spawn (p : nat)                   (* a caller enters SyncAdChain for publisher p *)
 | Remove (p : nat) (removed : bool) (* RemoveHandler(p) / the idle cleaner, and what it returned *)
+| AnnRejected (p c : nat)           (* an announcement of head c the receiver's allow filter rejected:
+                                       it never reaches receiver.Next and leaves no trace *)
 | Step (t : nat) (ok : bool).       (* thread t performs its next operation; ok: the sync succeeds
                                        (at PHandle) / the sync client can be created (at PCmp) *)
 
@@ -371,6 +373,7 @@ Section Step.
         if removed then (if busy then None else Some (set_hmap s (updf (hmap s) p None), None))
         else (if busy then Some (s, None) else None)
       end
+    | AnnRejected _ _ => Some (s, None)
     | Step t ok =>
       match threads s t with
       | Some th => step_thread s t th ok
